@@ -96,7 +96,8 @@ Definition laws_ok (obs : list Z) : bool :=
 
 Definition svc_key_eqb (r : N) (x y : svc) : bool :=
   Z.eqb (s_time x) (s_time y) && String.eqb (s_name x) (s_name y) && String.eqb (s_ns x) (s_ns y)
-  && (N.eqb r 0 || String.eqb (s_obj x) (s_obj y)).
+  && String.eqb (s_obj x) (s_obj y)
+  && (negb (N.eqb r 0) || String.eqb (s_host x) (s_host y)).
 
 Definition cfg_key_eqb (r : N) (x y : cfg) : bool :=
   Z.eqb (c_time x) (c_time y) && String.eqb (c_name x) (c_name y) && String.eqb (c_ns x) (c_ns y)
